@@ -3323,15 +3323,16 @@ class FocusedSeq(Construct):
                 this = Container(_ = this, _params = this['_params'], _root = None, _parsing = False, _building = True, _sizing = False, _subcons = None, _io = io, _index = this.get('_index', None))
                 this['_root'] = this['_'].get('_root', this)
                 try:
-                    this[{repr(self.parsebuildfrom)}] = obj
+                    focus = {repr(self.parsebuildfrom)}
+                    this[focus] = obj
                     finalobj = obj
         """
         for sc in self.subcons:
             block += f"""
-                    {f'obj = {"finalobj" if sc.name == self.parsebuildfrom else "None"}'}
+                    obj = finalobj if {repr(sc.name)} == focus else None
                     {f'buildret = '}{sc._compilebuild(code)}
                     {f'this[{repr(sc.name)}] = buildret' if sc.name else ''}
-                    {f'{"finalret = buildret" if sc.name == self.parsebuildfrom else ""}'}
+                    if {repr(sc.name)} == focus: finalret = buildret
             """
         block += f"""
                     pass
